@@ -409,11 +409,52 @@ fn segment(log: &RefCell<Vec<String>>, polls: &Cell<u32>, f: impl FnOnce() -> St
 
 // ---------------------------------------------------------------- registers
 
-fn run_reg<T: WithReset>(is_async: bool, addr: u32, ops: &[(char, Effect)], script: &[Entry]) -> String {
+fn run_reg<T: WithReset>(is_async: bool, reuse: bool, addr: u32, ops: &[(char, Effect)], script: &[Entry]) -> String {
     let log = RefCell::new(Vec::new());
     let pos = Cell::new(0usize);
     let polls = Cell::new(0u32);
     let mut segs = Vec::new();
+    if reuse {
+        // ONE operation object for the whole sequence (`let mut op = dev.reg(); op.write(..); op.write(..)`): the
+        // protocol is per call, nothing may be carried over from one call to the next
+        if !is_async {
+            let mut m = SyncMock(Core { script, pos: &pos, log: &log });
+            let mut o = RegisterOperation::<_, u32, T, RW>::new(&mut m, addr, T::with_reset as fn() -> T);
+            for (op, eff) in ops {
+                let (seg, panicked) = segment(&log, &polls, || match op {
+                    'w' => fmt_bytes_res(o.write(|r| eff.apply(r.get_inner_buffer_mut()))),
+                    'z' => fmt_bytes_res(o.write_with_zero(|r| eff.apply(r.get_inner_buffer_mut()))),
+                    'r' => fmt_bytes_res(o.read().map(|r| r.get_inner_buffer().to_vec())),
+                    'm' => fmt_bytes_res(o.modify(|r| eff.apply(r.get_inner_buffer_mut()))),
+                    _ => panic!("bad op"),
+                });
+                segs.push(seg);
+                if panicked {
+                    break;
+                }
+            }
+        } else {
+            let mut m = AsyncMock(Core { script, pos: &pos, log: &log });
+            let mut o = RegisterOperation::<_, u32, T, RW>::new(&mut m, addr, T::with_reset as fn() -> T);
+            for (op, eff) in ops {
+                let (seg, panicked) = segment(&log, &polls, || match op {
+                    'w' => fmt_bytes_res(block_on(o.write_async(|r| eff.apply(r.get_inner_buffer_mut())), &polls)),
+                    'z' => fmt_bytes_res(block_on(
+                        o.write_with_zero_async(|r| eff.apply(r.get_inner_buffer_mut())),
+                        &polls,
+                    )),
+                    'r' => fmt_bytes_res(block_on(o.read_async(), &polls).map(|r| r.get_inner_buffer().to_vec())),
+                    'm' => fmt_bytes_res(block_on(o.modify_async(|r| eff.apply(r.get_inner_buffer_mut())), &polls)),
+                    _ => panic!("bad op"),
+                });
+                segs.push(seg);
+                if panicked {
+                    break;
+                }
+            }
+        }
+        return segs.join(" | ");
+    }
     for (op, eff) in ops {
         let (seg, panicked) = segment(&log, &polls, || {
             if !is_async {
@@ -450,7 +491,9 @@ fn run_reg<T: WithReset>(is_async: bool, addr: u32, ops: &[(char, Effect)], scri
 }
 
 fn case_reg(p: &[&str]) -> String {
-    let is_async = p[1] == "a";
+    // "s" / "a": a fresh operation object per call; "S" / "A": one operation object for the whole sequence
+    let is_async = p[1] == "a" || p[1] == "A";
+    let reuse = p[1] == "S" || p[1] == "A";
     let size: u32 = p[2].parse().unwrap();
     let addr: u32 = p[3].parse().unwrap();
     let reset = hex_to_bytes(p[4]);
@@ -463,7 +506,7 @@ fn case_reg(p: &[&str]) -> String {
         })
         .collect();
     let script = parse_script(p[6]);
-    with_fs!(size, T, run_reg::<T>(is_async, addr, &ops, &script))
+    with_fs!(size, T, run_reg::<T>(is_async, reuse, addr, &ops, &script))
 }
 
 // ---------------------------------------------------------------- commands
